@@ -831,6 +831,10 @@ API_PAIRS = [
     ("keyset.new", "keyset.new"),
     ("jws.sign.json", "consume:jws.sign.json"),
     ("jwe.enc.RSA-OAEP", "jws.sign.RS256"),
+    # two calls that both need the PUBLIC half of one private RSA key nobody has used yet (its lazily derived public view)
+    ("jwe.enc.RSA-OAEP", "jwe.enc.RSA-OAEP.b"),
+    ("jwe.enc.RSA-OAEP", "consume:jws.sign.RS256"),
+    ("consume:jws.sign.RS256", "consume:jws.sign.RS256"),
     ("jws.verify.hs512.algorithms=HS256", "jws.verify.hs512.algorithms=HS512"),
     ("jws.verify.hs256.algorithms=HS256", "jws.sign.HS512.algorithms=HS512"),
     ("jws.verify.hs256.algorithms=none", "jws.verify.hs256.algorithms=HS256+HS512"),
